@@ -227,7 +227,14 @@ def any_split(ctx: Ctx, v: SymAny, label="anytag", interesting=None):
     uniformly, e.g. raise TypeError)."""
     tags = list(ANY_TAGS) if interesting is None else [t for t in ANY_TAGS if t in interesting]
     rest = [t for t in ANY_TAGS if t not in tags]
+    num = "num" in (interesting or ())
+    if num:
+        # int and bool behave alike in numeric contexts: one alternative
+        tags = [t for t in tags if t not in ("int", "bool")]
+        rest = [t for t in rest if t not in ("int", "bool")]
     alts = [t for t in tags if ctx.feasible(any_tag_is(v, t))]
+    if num and ctx.feasible(z3.Or(any_tag_is(v, "int"), any_tag_is(v, "bool"))):
+        alts.insert(0, "num")
     if rest and ctx.feasible(z3.Or(*[any_tag_is(v, t) for t in rest])):
         alts.append("rest")
     if not alts:
@@ -237,6 +244,11 @@ def any_split(ctx: Ctx, v: SymAny, label="anytag", interesting=None):
     if tag == "rest":
         ctx.assume(z3.Or(*[any_tag_is(v, t) for t in rest]))
         return "rest", v
+    if tag == "num":
+        ctx.assume(z3.Or(any_tag_is(v, "int"), any_tag_is(v, "bool")))
+        i = any_proj(ctx, v, "int").e
+        b = any_proj(ctx, v, "bool").e
+        return "int", mk_int(z3.If(any_tag_is(v, "bool"), z3.If(b, z3.IntVal(1), z3.IntVal(0)), i))
     ctx.assume(any_tag_is(v, tag))
     if tag == "none":
         return tag, None
@@ -409,8 +421,17 @@ def compare(ctx: Ctx, op, a, b):
             r = (not r) if isinstance(r, bool) else z3.Not(r)
         return r
     if isinstance(op, (ast.Lt, ast.LtE, ast.Gt, ast.GtE)):
-        if isinstance(a, SymAny):
-            raise Unsupported("ordering on Any")
+        if isinstance(a, SymAny) or isinstance(b, SymAny):
+            # int-like application values compare as ints; anything else against an int is a TypeError
+            def conv(x):
+                if not isinstance(x, SymAny):
+                    return x
+                tag, val = any_split(ctx, x, "order", interesting=("num",))
+                if tag == "rest":
+                    raise mk_exc(TypeError, "'<' not supported between these types")
+                return mk_int(z3_of_int(val))
+
+            a, b = conv(a), conv(b)
         ka, kb = kind_of_strlike(a), kind_of_strlike(b)
         if ka and kb:
             if not is_sym(a) and not is_sym(b):
